@@ -486,3 +486,21 @@ Example c06_nonvacuous_alias_sorted :
   | _ => False
   end.
 Proof. vm_compute. repeat split; reflexivity. Qed.
+
+(* Dereference ("unreadable memory ... make the affected rule fail"): the memory image of both walkers is read at
+   the evaluator's 64-bit address as it is - a read succeeds only when [addr, addr + w) lies inside the image and
+   then returns the w little-endian bytes there; an address outside fails, whatever its low 32 bits are (the class of
+   seeded change C06-6: an address >= 2^32 on a 32-bit context must not be folded back onto the stack). *)
+Theorem c06_deref_exact :
+  forall w base data addr,
+    (forall v, mem_read w base data addr = Some v ->
+       base <= addr /\ addr - base + w <= blen data /\
+       v = le_val (firstn (Z.to_nat w) (skipn (Z.to_nat (addr - base)) data))) /\
+    (addr < base \/ blen data < addr - base + w -> mem_read w base data addr = None).
+Proof. exact mem_read_exact. Qed.
+Print Assumptions c06_deref_exact.
+
+Example c06_nonvacuous_deref :
+  mem_read 4 2147483648 [1;0;0;0; 2;0;0;0] 2147483652 = Some 2 /\
+  mem_read 4 2147483648 [1;0;0;0; 2;0;0;0] (2147483652 + 4294967296) = None.
+Proof. vm_compute. split; reflexivity. Qed.
